@@ -19,3 +19,4 @@ INVARIANT Inv_StatusMatchesOutcome
 PROPERTY Act_ReleaseAfterTimeout
 
 PROPERTY Act_LogGrows
+PROPERTY Act_TerminalIsFinal
